@@ -16,7 +16,7 @@ TREES = "typhon/trees.py"
 FILESET = "typhon/files/fileset.py"
 
 EXPECT = {"C03.pred": 2, "C03.partition": 2, "C03.descent": 12, "C03.early": 2, "C03.rows": 4,
-          "C03.empty": 1, "C03.scan": 6, "C03.match": 14, "C03.extent": 2, "C03.member": 1, "C03.api": 2}
+          "C03.empty": 1, "C03.scan": 6, "C03.match": 15, "C03.extent": 2, "C03.member": 1, "C03.api": 2}
 
 
 def OVspec(a, b):
@@ -157,9 +157,9 @@ class TreeFacts:
         if cpc:
             g = self.ctx.func(TREES, "IntervalTree._get_center")
             rets = [s for s in g.body if isinstance(s, ast.Return)]
-            if len(rets) != 1 or len(g.body) != 1:
-                raise AnalysisError("_get_center is not a single return")
-            info["cp_sub"] = (rets[0].value, g.params[-1])
+            if len(rets) != 1 or not all(isinstance(s, (ast.Return, ast.Assign)) for s in g.body):
+                raise AnalysisError("_get_center is not straight-line code ending in one return")
+            info["cp_sub"] = (Flow(g).resolve(rets[0].value, at=rets[0], stop=(g.params[-1],)), g.params[-1])
         else:
             info["cp_sub"] = (cp, P)
         self._masks = info
@@ -255,28 +255,33 @@ class TreeFacts:
         child_masks = {attr_of.get(c[0]): c for c in info["children"]}
         found = {}
         dflow = Flow(f)
-        for st in walk_no_nested(f.node):
-            if not isinstance(st, ast.If):
-                continue
-            rec = [c for s in st.body for c in calls_in(s, fname)]
-            if not rec:
-                continue
-            call = rec[0]
+        from ..flow import guard_chain
+        for call in sorted(calls_in(f.node, fname), key=lambda c_: (c_.lineno, c_.col_offset)):
+            st = enclosing_stmt(call)
+            chain = guard_chain(st)
+            if not chain:
+                raise AnalysisError("%s: unguarded recursive call" % fname)
             # which child does the guard test for presence
             tested = None
             guard = []
-            for cj in conjuncts(dflow.resolve(st.test, at=st, stop=(q, nodep))):
-                a = _is_not_none(cj)
-                if a is not None and isinstance(a, ast.Attribute) and isinstance(a.value, ast.Name) and a.value.id == nodep:
-                    tested = a.attr
-                else:
-                    guard.append(cj)
+            for test_, pol_ in chain:
+                test_ = dflow.resolve(test_, at=test_, stop=(q, nodep))
+                if not pol_:
+                    guard.append(ast.UnaryOp(op=ast.Not(), operand=test_))
+                    continue
+                for cj in conjuncts(test_):
+                    a = _is_not_none(cj)
+                    if a is not None and isinstance(a, ast.Attribute) and isinstance(a.value, ast.Name) and a.value.id == nodep:
+                        tested = a.attr
+                    else:
+                        guard.append(cj)
+            st = [n_ for n_, _ in [(parent(st), 0)] if isinstance(n_, ast.If)][0] if isinstance(parent(st), ast.If) else st
             # the child handed to the recursive call
             bound = _bind_call(call, f)
             passed = bound.get(nodep)
             passed_attr = passed.attr if (isinstance(passed, ast.Attribute) and isinstance(passed.value, ast.Name)
                                           and passed.value.id == nodep) else None
-            construct = "IntervalTree.%s[%s]" % (fname, tested or norm(st.test))
+            construct = "IntervalTree.%s[%s]" % (fname, tested or norm(chain[-1][0]))
             ctx.ob(construct + ".child", passed_attr is not None and passed_attr == tested and tested in child_masks,
                    "guard tests %s.%s, recursive call receives %s" % (nodep, tested, norm(passed) if passed is not None else None),
                    "the recursive call descends into the child whose presence was tested",
@@ -386,20 +391,37 @@ class TreeFacts:
         # attributes holding the global extent
         ext = self.extent_attrs()
         n = 0
-        for st in f.body:
-            if not isinstance(st, ast.If):
-                if _contains_scan(st, nodep):
-                    break
-                continue
-            rets = [s for s in st.body if isinstance(s, ast.Return)]
-            if not rets or st.orelse:
-                if _contains_scan(st, nodep):
-                    break
-                continue
-            ret = rets[0]
+        from ..flow import guard_chain
+        eflow = Flow(f)
+        scan_pos = None
+        for k_, st in enumerate(f.body):
+            if _contains_scan(st, nodep):
+                scan_pos = k_
+                break
+        if scan_pos is None:
+            raise AnalysisError("%s: scan of the centre rows not found" % fname)
+        early = []
+        for st in f.body[:scan_pos]:
+            for r_ in [x for x in walk_no_nested(st) if isinstance(x, ast.Return)] if not isinstance(st, ast.Return) else [st]:
+                early.append(r_)
+        for ret in early:
+            chain = guard_chain(ret)
+            if not chain:
+                raise AnalysisError("%s: unconditional return before the scan" % fname)
+            st = ret
+            while parent(st) is not f.node:
+                st = parent(st)
             n += 1
             kind_ret = self._return_kind(ret.value)
-            guard = [cj for cj in conjuncts(st.test) if not (isinstance(cj, ast.Name) and cj.id == flag)]
+            guard = []
+            for t_, pol_ in chain:
+                t_ = eflow.resolve(t_, at=t_, stop=(q, nodep))
+                if pol_:
+                    guard.extend(cj for cj in conjuncts(t_) if not (isinstance(cj, ast.Name) and cj.id == flag))
+                else:
+                    guard.append(ast.UnaryOp(op=ast.Not(), operand=t_))
+            if not guard:
+                raise AnalysisError("%s: early return guarded by the flag only" % fname)
             gexpr = ast.BoolOp(op=ast.And(), values=guard) if len(guard) > 1 else guard[0]
             funcs = {"interval_overlaps": self.OV, "interval_contains": self.IN}
             lo, hi = ext
@@ -491,29 +513,39 @@ class TreeFacts:
                 return a.elts[0].attr, a.elts[1].attr
         # spelled out as comparisons: the roles are the ones under which the guard is a sound "outside" test
         flag = g.params[3] if len(g.params) > 3 else None
-        for st in g.body:
-            if isinstance(st, ast.If) and any(isinstance(x, ast.Return) for x in st.body) and not st.orelse:
-                guard = [cj for cj in conjuncts(st.test) if not (isinstance(cj, ast.Name) and cj.id == flag)]
-                attrs = []
-                for cj in guard:
-                    for n in ast.walk(cj):
-                        if isinstance(n, ast.Attribute) and isinstance(n.value, ast.Name) and n.value.id == "self" and n.attr not in attrs \
-                                and not (isinstance(parent(n), ast.Call) and parent(n).func is n):
-                            attrs.append(n.attr)
-                if len(attrs) == 2 and guard:
-                    gexpr = ast.BoolOp(op=ast.And(), values=guard) if len(guard) > 1 else guard[0]
-                    sound = []
-                    for lo, hi in ((attrs[0], attrs[1]), (attrs[1], attrs[0])):
-                        m = Model(["mn", "mx", "p"], constraint=lambda a: a["mn"] <= a["mx"])
-                        ok, _, _ = m.compare(lambda a: bool(Interp({"self." + lo: a["mn"], "self." + hi: a["mx"], g.params[1]: a["p"]},
-                                                                    {"interval_contains": self.IN, "interval_overlaps": self.OV}).ev(gexpr)),
-                                             lambda a: not (a["mn"] <= a["p"] <= a["mx"]), mode="implies")
-                        if ok:
-                            sound.append((lo, hi))
-                    if len(sound) == 1:
-                        return sound[0]
-                    return attrs[0], attrs[1]
+        from ..flow import guard_chain
+        gflow = Flow(g)
+        for ret in sorted([x for x in walk_no_nested(g.node) if isinstance(x, ast.Return)], key=lambda x: x.lineno):
+            chain = guard_chain(ret)
+            if not chain:
                 break
+            guard = []
+            for t_, pol_ in chain:
+                t_ = gflow.resolve(t_, at=t_, stop=(g.params[1], g.params[2]))
+                if pol_:
+                    guard.extend(cj for cj in conjuncts(t_) if not (isinstance(cj, ast.Name) and cj.id == flag))
+                else:
+                    guard.append(ast.UnaryOp(op=ast.Not(), operand=t_))
+            attrs = []
+            for cj in guard:
+                for n in ast.walk(cj):
+                    if isinstance(n, ast.Attribute) and isinstance(n.value, ast.Name) and n.value.id == "self" and n.attr not in attrs \
+                            and not (isinstance(parent(n), ast.Call) and parent(n).func is n) and n.attr not in ("root", "size"):
+                        attrs.append(n.attr)
+            if len(attrs) == 2 and guard:
+                gexpr = ast.BoolOp(op=ast.And(), values=guard) if len(guard) > 1 else guard[0]
+                sound = []
+                for lo, hi in ((attrs[0], attrs[1]), (attrs[1], attrs[0])):
+                    m = Model(["mn", "mx", "p"], constraint=lambda a: a["mn"] <= a["mx"])
+                    ok, _, _ = m.compare(lambda a: bool(Interp({"self." + lo: a["mn"], "self." + hi: a["mx"], g.params[1]: a["p"]},
+                                                                {"interval_contains": self.IN, "interval_overlaps": self.OV}).ev(gexpr)),
+                                         lambda a: not (a["mn"] <= a["p"] <= a["mx"]), mode="implies")
+                    if ok:
+                        sound.append((lo, hi))
+                if len(sound) == 1:
+                    return sound[0]
+                return attrs[0], attrs[1]
+            break
         raise AnalysisError("_query_point: guard interval_contains((self.lo, self.hi), point) not found")
 
     # -- C03.extent ------------------------------------------------------------------
@@ -595,6 +627,11 @@ class TreeFacts:
             if okb:
                 ar = [c for c in calls_in(last) if (dotted(c.func) or "").split(".")[-1] == "arange"][0]
                 okb = len(ar.args) == 1 and norm(ar.args[0]) in ("%s.shape[0]" % P, "len(%s)" % P)
+                # ... shaped into ONE column of that many rows
+                rs = parent(parent(ar)) if isinstance(parent(ar), ast.Attribute) and parent(ar).attr == "reshape" else None
+                if isinstance(rs, ast.Call):
+                    shp = rs.args[0].elts if len(rs.args) == 1 and isinstance(rs.args[0], (ast.Tuple, ast.List)) else rs.args
+                    okb = okb and len(shp) == 2 and norm(shp[0]) in ("%s.shape[0]" % P, "len(%s)" % P, "-1") and norm(shp[1]) == "1"
         ctx.ob("IntervalTree.__init__.index_column", okb, "indexed array = %s" % txt,
                "[intervals | arange(number of rows)] with the index column last (read back as column 2 by the scans)",
                node=call, func=f)
@@ -622,34 +659,47 @@ class TreeFacts:
         ctx.rule("C03.member", "T1", "__contains__ dispatches sequences to the interval query and scalars to the point query")
         f = ctx.func(TREES, "IntervalTree.__contains__")
         item = f.params[1]
-        ifs = [s for s in f.body if isinstance(s, ast.If)]
-        ok = False
-        fact = "no isinstance dispatch"
-        if ifs:
-            st = ifs[0]
-            t = st.test
-            is_seq = isinstance(t, ast.Call) and dotted(t.func) == "isinstance" and norm(t.args[0]) == item
-            qb = [c for s in st.body for c in calls_in(s, "_query")]
-            other = st.orelse
-            if not other and st.body and isinstance(st.body[-1], (ast.Return, ast.Raise)):
-                other = f.body[f.body.index(st) + 1:]
-            pb = [c for s in other for c in calls_in(s, "_query_point")]
-            fact = "if %s: %s else: %s" % (norm(t), [norm(c) for c in qb], [norm(c) for c in pb])
-            ok = is_seq and len(qb) == 1 and len(pb) == 1
-            # the hit list is turned into a truth value by bool()/len(): any()/all() look at the VALUES (index 0 is falsy)
-            for c in qb + pb:
-                w = parent(c)
-                wrap = dotted(w.func) if isinstance(w, ast.Call) else None
-                if wrap not in ("bool", "len"):
+        flow = Flow(f)
+        cond = "isinstance(%s, (tuple, list))" % item
+        alt = "isinstance(%s, (list, tuple))" % item
+        seen = {}
+        for v in (True, False):
+            assume = {cond: v, alt: v}
+            rets = [r_ for r_ in flow.stmts if isinstance(r_, ast.Return) and r_.value is not None and flow.live_under(r_, assume)]
+            vals = []
+            for r_ in rets:
+                val = flow.resolve_under(r_.value, assume, at=r_, depth=6, stop=(item,))
+                vals.append((r_, val))
+            seen[v] = vals
+        fact = "sequence key: %s; other key: %s" % ([norm(v_)[:70] for _, v_ in seen[True]], [norm(v_)[:70] for _, v_ in seen[False]])
+        if not any("isinstance" in norm(n_) for n_ in walk_no_nested(f.node) if isinstance(n_, ast.Call)):
+            raise AnalysisError("__contains__: no isinstance dispatch on the key")
+        ok = True
+        for v, priv in ((True, "_query"), (False, "_query_point")):
+            if len(seen[v]) != 1:
+                raise AnalysisError("__contains__: %d returns on the path for a %s key" % (len(seen[v]), "sequence" if v else "scalar"))
+            val = seen[v][0][1]
+            cs = [c for c in ast.walk(val) if isinstance(c, ast.Call) and norm(c.func) in ("self._query", "self._query_point")]
+            if len(cs) != 1:
+                raise AnalysisError("__contains__: the returned value %s is not built from one private query" % norm(val)[:60])
+            c = cs[0]
+            if norm(c.func) != "self." + priv:
+                ok = False
+            # the hit list becomes a truth value by emptiness, not by its values (index 0 is falsy)
+            t_ = norm(val).replace(" ", "")
+            cc = norm(c).replace(" ", "")
+            if t_ not in ("bool(%s)" % cc, "0<len(%s)" % cc, "len(%s)>0" % cc, "len(%s)!=0" % cc, "bool(len(%s))" % cc, "%s!=[]" % cc, "not(not%s)" % cc):
+                if any(w_ in t_ for w_ in ("any(", "all(", "sum(", "max(", "min(")):
                     ok = False
-                    fact_extra = " [hit list wrapped by %s]" % wrap
-            for c in qb + pb:
-                g = ctx.func(TREES, "IntervalTree." + dotted(c.func).split(".")[-1])
-                b = _bind_call(c, g)
-                ok = ok and norm(b.get(g.params[1])) == item and norm(b.get(g.params[2])) == "self.root"
-                fl = b.get(g.params[3]) if len(g.params) > 3 else None
-                ok = ok and isinstance(fl, ast.Constant) and fl.value is True
-        ctx.ob("IntervalTree.__contains__", ok, fact + (locals().get("fact_extra") or ""),
+                    fact += " [hit list reduced by its VALUES]"
+                else:
+                    raise AnalysisError("__contains__: conversion %s of the hit list to a truth value not recognised" % t_[:60])
+            g = ctx.func(TREES, "IntervalTree." + priv)
+            b = _bind_call(c, g)
+            ok = ok and norm(b.get(g.params[1])) == item and norm(b.get(g.params[2])) == "self.root"
+            fl = b.get(g.params[3]) if len(g.params) > 3 else None
+            ok = ok and isinstance(fl, ast.Constant) and fl.value is True
+        ctx.ob("IntervalTree.__contains__", ok, fact,
                "tuple/list -> _query(item, self.root, check_extreme=True); else _query_point(item, self.root, check_extreme=True)",
                node=f.node, func=f)
 
@@ -862,6 +912,18 @@ def rule_match(ctx):
                "find(start - max_interval, end + max_interval) when max_interval is given, else find(start, end)",
                node=c, func=f)
 
+    # max_interval is normalised to a timedelta before it is used (numbers are seconds)
+    conv = [st for st in flow.stmts if isinstance(st, ast.Assign) and norm(st.targets[0]) == p_mi and calls_in(st.value, "to_timedelta")]
+    okcv = False
+    if conv:
+        cv = calls_in(conv[0].value, "to_timedelta")[0]
+        kwv = {k.arg: norm(k.value).replace('"', "'") for k in cv.keywords}
+        okcv = bool(cv.args) and norm(cv.args[0]) == p_mi and kwv.get("numbers_as", "'seconds'") == "'seconds'"
+        uses = [n for n in walk_no_nested(f.node) if isinstance(n, ast.Name) and n.id == p_mi and isinstance(n.ctx, ast.Load)
+                and not any(n is x for x in ast.walk(conv[0])) and not (isinstance(parent(n), ast.Compare) and "None" in norm(parent(n)))]
+        okcv = okcv and all(conv[0] in flow.defs(p_mi, u) for u in uses)      # (the other reaching definition is the parameter on the infeasible path around the first `if`)
+    ctx.ob("FileSet.match.max_interval", okcv, "%s" % (norm(conv[0]) if conv else "no to_timedelta conversion"),
+           "max_interval = to_timedelta(max_interval, numbers_as='seconds') reaches every arithmetic use", node=conv[0] if conv else f.node, func=f)
     # widening of the secondary coverages
     aug = [st for st in flow.stmts if isinstance(st, ast.AugAssign) and isinstance(st.target, ast.Subscript)]
     t2 = None
@@ -956,7 +1018,7 @@ def rule_match(ctx):
     ctx.ob("FileSet.match.yield.primary", norm(flow.resolve(yp, at=y, stop=tuple(n.id for n in lp.target.elts))) in okyp or norm(yp) in okyp,
            "yield %s, ... %s" % (norm(yp), how),
            "result i of tree.query(primaries) is paired with %s[i]" % L1, node=y, func=f)
-    mval = flow.resolve(ym, at=y, depth=1)
+    mval = flow.resolve(ym, at=y, depth=1) if isinstance(ym, ast.Name) else ym
     okm = False
     srt = False
     if isinstance(mval, ast.ListComp) and len(mval.generators) == 1:
@@ -973,9 +1035,20 @@ def rule_match(ctx):
            "matches in time order (sorted indices of the time-ordered secondary list)", node=y, func=f)
     # primaries without partner are skipped
     st = enclosing_stmt(y)
-    g = parent(st)
-    okg = isinstance(g, ast.If) and st in g.body and norm(g.test) == norm(ym)
-    ctx.ob("FileSet.match.yield.nonempty", okg, "yield guarded by: %s" % (norm(g.test) if isinstance(g, ast.If) else None),
+    from ..flow import guard_chain
+    okg = False
+    gtxt = []
+    for t_, pol_ in guard_chain(st, stop=lp, implicit=True):
+        gtxt.append(("" if pol_ else "not ") + norm(t_))
+        while isinstance(t_, ast.UnaryOp) and isinstance(t_.op, ast.Not):
+            t_, pol_ = t_.operand, not pol_
+        tt_ = norm(t_).replace(" ", "")
+        subj = [norm(ym), ovar]
+        if pol_ and (tt_ in subj or any(tt_ in ("len(%s)>0" % x, "0<len(%s)" % x, "len(%s)!=0" % x, "len(%s)" % x) for x in subj)):
+            okg = True
+        if not pol_ and any(tt_ in ("len(%s)==0" % x, "not%s" % x) for x in subj):
+            okg = True
+    ctx.ob("FileSet.match.yield.nonempty", okg, "yield guarded by: %s" % (gtxt or None),
            "primaries without partner are omitted (`if matches`)", node=y, func=f)
     # conversion of both lists to the same integer unit
     conv = {}
